@@ -46,7 +46,7 @@ def r7(ctx, cfg):
     F, P = cfg.facts, cfg.prov
     R = "C14.R7"
     exp = {STAKES: {SK + "update_stake", SK + "slash", SK + "process_queue", SK + "update_rewards", "staking::DistributionKeeper::remove_rewards"},
-           VINFO: {SK + "update_stake", SK + "slash", SK + "update_rewards", SK + "add_validator", SK + "remove_staker"},
+           VINFO: {SK + "update_stake", SK + "slash", SK + "update_rewards", SK + "add_validator", SK + "process_queue"},
            QUEUE: {SK + "slash", SK + "process_queue", EXEC}}
     for item, allowed in exp.items():
         writers = set()
@@ -193,14 +193,31 @@ def r1(ctx, cfg):
         for idx, (bid, t) in enumerate(rms):
             n_rm += 1
             rm_roots.add(root)
-            reach = cf.reachable_from(bid, avoid=list(unpair | errs))
+            # nothing to unpair when the validator's record does not exist: the absent edges of a VALIDATOR_INFO lookup for
+            # the same validator count as "paired"; likewise nothing to save when the delegator was not a member (false edge
+            # of stakers.remove(..))  [the helper remove_staker is always spliced - vlib/inline.py ALWAYS_INLINE]
+            vkey = peel(P.call_args(f, t, bid)[2])
+            vval = vkey[2][1][1] if vkey[0] == "agg" and vkey[1] == "tuple" and len(vkey[2]) == 2 else None
+
+            def is_vinfo(o, vval=vval):
+                o = peel(o)
+                return o[0] == "ok" and peel(o[1])[0] == "call" and peel(o[1])[1] == "cw_storage_plus::Map::may_load" and peel(peel(o[1])[2][0]) == VINFO and \
+                    vval is not None and same_origin(peel(o[1])[2][2], vval)
+            _pres, none_edges = q.presence_edges(P, f, is_vinfo)
+            none_edges = [e for e in none_edges if cf.dominates(bid, e)]
+            false_edges = []
+            for g0 in q.guards(P, f):
+                pr, ar = g0[1], g0[2]
+                if pr.startswith("call:") and "BTreeSet" in pr and pr.endswith("::remove"):
+                    false_edges.append(g0[4])
+            reach = cf.reachable_from(bid, avoid=list(unpair | errs) + none_edges)
             bad_ret = [r for r in cf.return_blocks() if r in reach]
             ok1 = not bad_ret
             # and the staker set is saved afterwards
             ok2 = True
             for ub in unpair:
                 if ub in cf.reachable_from(bid) or ub == bid:
-                    reach2 = cf.reachable_from(ub, avoid=list((saves - {ub}) | errs)) if ub not in saves else set()
+                    reach2 = cf.reachable_from(ub, avoid=list((saves - {ub}) | errs) + false_edges) if ub not in saves else set()
                     if any(r in reach2 for r in cf.return_blocks()):
                         ok2 = False
             ctx.ob(R, root, "stakes-remove-paired-with-staker-removal#%d" % idx, ok1 and ok2,
@@ -229,15 +246,6 @@ def r1(ctx, cfg):
     ctx.ob(R, "-", "floor:functions-removing-delegations", want <= rm_roots, "STAKES.remove expected in %s, found in %s" % (sorted(want), sorted(rm_roots)),
            sample=str(sorted(x.rsplit("::", 1)[1] for x in rm_roots)))
     ctx.floor(R, "STAKES.save sites", n_sv, 2)
-    # the closures that rely on the invariant exist where expected
-    exp = []
-    for f in F.user_fns():
-        if f.file == "src/staking.rs":
-            for bid, t in f.calls():
-                if t["callee"]["key"] == "std::option::Option::expect":
-                    exp.append(f.key.split("::{closure")[0])
-    ctx.ob(R, "-", "expect-sites-are-the-two-staker-loops", sorted(exp) == [SK + "slash", SK + "update_rewards"], "Option::expect is used in %s" % sorted(exp),
-           sample="update_rewards, slash")
 
 
 PANICKY = {"std::option::Option::unwrap", "std::option::Option::expect", "std::result::Result::unwrap", "std::result::Result::expect",
@@ -248,6 +256,7 @@ def r2(ctx, cfg):
     F, P = cfg.facts, cfg.prov
     R = "C14.R2"
     n = 0
+    n_inv = 0
     for f in F.user_fns():
         if f.file != "src/staking.rs":
             continue
@@ -262,8 +271,20 @@ def r2(ctx, cfg):
             a = P.call_args(f, t, bid)
             conds = q.dominating_conditions(P, f, bid)
             why = None
-            if k == "std::option::Option::expect" and root in (SK + "update_rewards", SK + "slash"):
+            def is_stakes_entry(o):
+                """the Option holding a delegator's STAKES entry: a lookup result or the value handed to STAKES.update's closure"""
+                if contains(o, lambda x: x[0] == "call" and x[1] in ("cw_storage_plus::Map::may_load",) and peel(x[2][0]) == STAKES):
+                    return True
+                o = peel(o)
+                return o[0] == "cparam" and o[3] == "cw_storage_plus::Map::update"
+            if k in ("std::option::Option::expect", "std::option::Option::unwrap") and root in (SK + "update_rewards", SK + "slash") and is_stakes_entry(a[0]):
                 why = "justified by the pairing invariant C14.R1"
+                n_inv += 1
+            elif k.startswith("core::panicking::") and root in (SK + "update_rewards", SK + "slash") and \
+                    any(c2[0] in ("variant_in",) and "None" in c2[2] and is_stakes_entry(c2[1]) for e, c2 in conds) and not (t.get("exp") or "").startswith("$crate::panic::unreachable"):
+                # `let Some(s) = entry else { panic!(..) }`: the same reliance on the invariant, spelled out
+                why = "justified by the pairing invariant C14.R1 (explicit panic on a missing STAKES entry)"
+                n_inv += 1
             elif k == "std::option::Option::unwrap" and root == SK + "process_queue":
                 o = peel(a[0])
                 front_some = any(c2[0] == "variant_in" and c2[2] == ("Some",) and peel(c2[1])[0] == "call" and peel(c2[1])[1].endswith("VecDeque::front") for e, c2 in conds)
@@ -280,6 +301,7 @@ def r2(ctx, cfg):
                    "unjustified panicking call %s in %s (line %d): a valid staking history could crash the simulator" % (k, f.key, t["line"]), fn=f,
                    line=t["line"], sample=why)
     ctx.floor(R, "panicking call sites in staking.rs", n, 4)
+    ctx.floor(R, "sites relying on the pairing invariant (update_rewards, slash)", n_inv, 2)
     # update_rewards fails (does not panic) for an unknown validator
     key = SK + "update_rewards"
     f = ctx.need_fn(R, key)
@@ -293,25 +315,10 @@ def r2(ctx, cfg):
             # and every write is dominated by a "present" edge
             cf = cfg_of(f)
 
-            def on_record(o):
-                return contains(o, lambda x: x[0] == "call" and x[1] == "cw_storage_plus::Map::may_load" and peel(x[2][0]) == VINFO)
-            present, absent = [], []
-            for sb in f.order:
-                tt = f.blocks[sb]["term"]
-                if tt["k"] != "switch" or "discr_of" not in tt:
-                    continue
-                so = peel(P.place(f, tt["discr_of"], (sb, "t")))
-                # the Option itself: ok(may_load(..)) ; or the Result built from it by ok_or / ok_or_else
-                is_opt = so[0] == "ok" and peel(so[1])[0] == "call" and peel(so[1])[1] == "cw_storage_plus::Map::may_load" and on_record(so)
-                is_res = so[0] == "call" and so[1] in ("std::option::Option::ok_or_else", "std::option::Option::ok_or") and on_record(so[2][0]) and \
-                    peel(so[2][0])[0] == "ok"
-                if not (is_opt or is_res):
-                    continue
-                for e, v, n, tb in cf.switch_edges(sb):
-                    if n in ("Some", "Continue", "Ok"):
-                        present.append(e)
-                    elif n in ("None", "Break", "Err"):
-                        absent.append(e)
+            def is_record(o):
+                o = peel(o)
+                return o[0] == "ok" and peel(o[1])[0] == "call" and peel(o[1])[1] == "cw_storage_plus::Map::may_load" and peel(peel(o[1])[2][0]) == VINFO
+            present, absent = q.presence_edges(P, f, is_record)
             writes = [b for b, t in f.calls() if t["callee"]["key"].startswith("cw_storage_plus::") and t["callee"]["name"] in ("save", "remove", "update")]
             ok = bool(present) and bool(absent) and bool(writes) and all(any(cf.dominates(e, b) for e in present) for b in writes)
             errs = error_blocks(P, f)
